@@ -1041,6 +1041,10 @@ enum SeqOp {
     GetWait,     // blocking get: parks when no slot is free (and is completed by a later operation)
     CancelWait,  // the oldest parked get is abandoned
     GetReject,   // non-blocking get whose first idle object is rejected
+    GetCancel1,  // non-blocking get abandoned at its first await point (future dropped; a panic where that is impossible)
+    GetCancel2,  // ... at its second await point (the first one answered Ok)
+    GetPanic1,   // the manager / hook panics at the first await point
+    GetFail2,    // the second step fails (after the first succeeded)
     DropLow,     // return the held object with the lowest id
     DropHigh,    // ... the highest id
     Take,        // Object::take of the lowest
@@ -1051,11 +1055,15 @@ enum SeqOp {
     Status,
 }
 
-const SEQ_ALPHABET: [SeqOp; 16] = [
+const SEQ_ALPHABET: [SeqOp; 20] = [
     SeqOp::Get,
     SeqOp::GetWait,
     SeqOp::CancelWait,
     SeqOp::GetReject,
+    SeqOp::GetCancel1,
+    SeqOp::GetCancel2,
+    SeqOp::GetPanic1,
+    SeqOp::GetFail2,
     SeqOp::DropLow,
     SeqOp::DropHigh,
     SeqOp::Take,
@@ -1103,6 +1111,37 @@ fn seq_settle(w: &mut World, out: &mut TraceOut) -> bool {
     false
 }
 
+/// a non-blocking get whose k-th await point (gate) is answered as scripted: 0 Ok, 1 Err, 2 panic, 3 the future
+/// is dropped there (a panic where the await point cannot be cancelled: a sync hook); later gates Ok
+fn seq_get_scripted(w: &mut World, out: &mut TraceOut, t: i64, script: &[i64]) -> bool {
+    let mut gate = 0usize;
+    for _ in 0..200 {
+        let l = match w.sched.state(t as usize) {
+            Yield::Done(_) | Yield::Sem => return true,
+            Yield::Gate { .. } => {
+                let a = script.get(gate).copied().unwrap_or(0);
+                gate += 1;
+                match a {
+                    3 => {
+                        let c = vec![L_CANCEL, t, 0, 0, 0];
+                        if w.enabled(&c) {
+                            c
+                        } else {
+                            vec![L_ENV, t, 2, 0, 0]
+                        }
+                    }
+                    a => vec![L_ENV, t, a, 0, 0],
+                }
+            }
+            _ => vec![L_STEP, t, 0, 0, 0],
+        };
+        if !run_label(w, out, l) {
+            return false;
+        }
+    }
+    false
+}
+
 fn seq_parked(w: &World) -> Vec<usize> {
     w.sched.states().iter().enumerate().filter(|(t, y)| matches!(y, Yield::Sem) && !w.sched.woken(*t)).map(|(t, _)| t).collect()
 }
@@ -1118,6 +1157,15 @@ fn seq_apply0(w: &mut World, out: &mut TraceOut, r: &mut Rng, op: SeqOp) -> bool
     let t = w.sched.ntasks() as i64;
     match op {
         SeqOp::Get => run_label(w, out, vec![L_START, t, OP_GET, 1, 0]) && run_task(w, out, r, t, 0),
+        SeqOp::GetCancel1 | SeqOp::GetCancel2 | SeqOp::GetPanic1 | SeqOp::GetFail2 => {
+            let script: &[i64] = match op {
+                SeqOp::GetCancel1 => &[3],
+                SeqOp::GetCancel2 => &[0, 3],
+                SeqOp::GetPanic1 => &[2],
+                _ => &[0, 1],
+            };
+            !snap.closed && run_label(w, out, vec![L_START, t, OP_GET, 1, 0]) && seq_get_scripted(w, out, t, script)
+        }
         SeqOp::GetWait => {
             seq_parked(w).len() < 2 && !snap.closed && run_label(w, out, vec![L_START, t, OP_GET, 0, 0]) && run_task(w, out, r, t, 0)
         }
